@@ -55,6 +55,52 @@ pub fn expand_str(src: &str) -> Expansion {
     }
 }
 
+/// Flatten a token stream for comparison between proc_macro2's fallback and the compiler's pretty-printed
+/// expansion: None-delimited groups are transparent, a comma directly before a closing delimiter is
+/// dropped, string literals are compared by value, `///` docs and `#[doc = r".."]` coincide.
+fn flatten(ts: TokenStream, out: &mut Vec<String>) {
+    use proc_macro2::{Delimiter, TokenTree};
+    for t in ts {
+        match t {
+            TokenTree::Group(g) => {
+                let (a, b) = match g.delimiter() {
+                    Delimiter::Parenthesis => ("(", ")"),
+                    Delimiter::Brace => ("{", "}"),
+                    Delimiter::Bracket => ("[", "]"),
+                    Delimiter::None => ("", ""),
+                };
+                if !a.is_empty() {
+                    // the pretty printer drops the trailing comma of a where clause (`where F: X, {`)
+                    if a == "{" && out.last().map(|s| s == ",").unwrap_or(false) {
+                        out.pop();
+                    }
+                    out.push(a.to_string());
+                }
+                flatten(g.stream(), out);
+                if !b.is_empty() {
+                    if out.last().map(|s| s == ",").unwrap_or(false) {
+                        out.pop();
+                    }
+                    out.push(b.to_string());
+                }
+            }
+            TokenTree::Ident(i) => out.push(i.to_string()),
+            TokenTree::Punct(p) => out.push(p.as_char().to_string()),
+            TokenTree::Literal(l) => {
+                let s = l.to_string();
+                if s.starts_with('"') || s.starts_with("r\"") || s.starts_with("r#") {
+                    match syn::parse_str::<syn::LitStr>(&s) {
+                        Ok(ls) => out.push(format!("str:{:?}", ls.value())),
+                        Err(_) => out.push(s),
+                    }
+                } else {
+                    out.push(s)
+                }
+            }
+        }
+    }
+}
+
 fn main() {
     std::panic::set_hook(Box::new(|_| {}));
     let args: Vec<String> = std::env::args().collect();
@@ -92,6 +138,27 @@ fn main() {
                     }
                     Expansion::Err(m) => writeln!(o, "ERR\n{}", m.join("\n")).unwrap(),
                     Expansion::Panic(m) => writeln!(o, "PANIC\n{}", m).unwrap(),
+                }
+                writeln!(o, "\u{1e}").unwrap();
+            }
+        }
+        "flat" => {
+            // normalised flat token list of each input text (token-level conformance, DESIGN.md §12.6)
+            let mut inp = String::new();
+            std::io::stdin().read_to_string(&mut inp).unwrap();
+            let so = std::io::stdout();
+            let mut o = std::io::BufWriter::new(so.lock());
+            for text in inp.split("\n\u{1e}\n") {
+                if text.trim().is_empty() {
+                    continue;
+                }
+                match text.parse::<TokenStream>() {
+                    Ok(ts) => {
+                        let mut v = Vec::new();
+                        flatten(ts, &mut v);
+                        writeln!(o, "OK\n{}", v.join("\n")).unwrap();
+                    }
+                    Err(e) => writeln!(o, "ERR\n{e}").unwrap(),
                 }
                 writeln!(o, "\u{1e}").unwrap();
             }
